@@ -48,6 +48,7 @@ package vm
 //   contents change.
 //@ func template.evalExpr
 //@ requires ok: riOK(runInfo)
+//@ requires [C13] nolocks: nolocks()
 //@ requires [C08] clean: runInfo.err == nil
 //@ requires [C02] nofire: !fired
 //@ modifies runInfo.rv, runInfo.err, runInfo.expr, runInfo.operator, polls, fired
@@ -62,6 +63,7 @@ package vm
 // evalStmt: statements additionally may register deferred calls and change runInfo.stmt; they may leave a sentinel.
 //@ func template.evalStmt
 //@ requires ok: riOK(runInfo)
+//@ requires [C13] nolocks: nolocks()
 //@ requires [C08] clean: runInfo.err == nil
 //@ requires [C02] nofire: !fired
 //@ modifies runInfo.rv, runInfo.err, runInfo.expr, runInfo.operator, runInfo.stmt, runInfo.defers, polls, fired
@@ -111,6 +113,7 @@ package vm
 //@ func (*runInfoStruct).runSingleStmt
 //@ props C04 C08 C02
 //@ requires ok: riOK(runInfo)
+//@ requires [C13] nolocks: nolocks()
 //@ requires [C08] clean: runInfo.err == nil
 //@ modifies runInfo.rv, runInfo.err, runInfo.expr, runInfo.operator, runInfo.stmt, runInfo.defers, polls, fired
 //@ modifies heap("MV:Int:Int"), heap("MP:Int"), heap("env.Env.values"), heap("env.Env.types")
@@ -249,6 +252,7 @@ package vm
 
 //@ func (*runInfoStruct).runDefers
 //@ props C04 C09 C02
+//@ requires [C13] nolocks: nolocks()
 //@ ensures [C02] firederr: fired && !old(fired) ==> runInfo.err != nil && runInfo.err != ErrReturn
 //@ requires ok: riOK(runInfo)
 //@ modifies runInfo.rv, runInfo.err, runInfo.defers, polls, fired
@@ -265,6 +269,7 @@ package vm
 
 //@ func (*runInfoStruct).callDeferredFunc
 //@ props C04 C09 C02
+//@ requires [C13] nolocks: nolocks()
 //@ ensures [C02] firederr: fired && !old(fired) ==> realErr(runInfo.err)
 //@ ensures [C02] pollsmono: polls >= old(polls)
 //@ ensures [C08] nosentinel: old(runInfo.err) == nil ==> notSentinel(runInfo.err)
@@ -295,6 +300,7 @@ package vm
 //@ like template.vmfunc
 //@ captures env: envFunc != nil && options != nil && funcExpr != nil
 //@ requires ctx != nil
+//@ requires [C13] nolocks: nolocks()
 //@ requires [C01] arity: len(args) >= len(funcExpr.Params)
 //@ loop 0 invariant runInfo.env != nil && polls == old(polls) && fired == old(fired)
 
@@ -304,12 +310,14 @@ package vm
 //@ func RunContext
 //@ props C04 C08 C02 C09
 //@ requires ctx != nil && env != nil
+//@ requires [C13] nolocks: nolocks()
 //@ modifies polls, fired, heap("MV:Int:Int"), heap("MP:Int"), heap("env.Env.values"), heap("env.Env.types"), heap("ast.Position.Line"), heap("ast.Position.Column")
 //@ ensures [C08] boundary: result.1 != ErrReturn
 
 //@ func Run
 //@ props C04 C08 C02 C09
 //@ requires env != nil
+//@ requires [C13] nolocks: nolocks()
 //@ modifies polls, fired, heap("MV:Int:Int"), heap("MP:Int"), heap("env.Env.values"), heap("env.Env.types"), heap("ast.Position.Line"), heap("ast.Position.Column")
 
 //@ func Execute
